@@ -112,3 +112,35 @@ Theorem groupbcd_invariant_transport :
   I w0 Xw0 -> bsolve cfg K (Some w0) (Some Xw0) = Ok out -> I (b_w (g_s out)) (b_Xw (g_s out)).
 Proof. intros F H A. exact (@bsolve_preserves F H A). Qed.
 Print Assumptions groupbcd_invariant_transport.
+
+(* ---------------------------------------------------------------- ProxNewton ------------------------------- *)
+Require Import SK.Skel.ProxNewton SK.Skel.ProxNewtonProofs.
+Theorem proxnewton_stop_is_criterion_of_returned_point :
+  forall {F} `{Num F} (cfg : @pn_config F) (K : @pn_kernels F) w_init Xw_init out,
+  pn_solve cfg K w_init Xw_init = Ok out -> ele (g_stop out) (pn_tol cfg) = true ->
+  exists c, pn_crit cfg K (g_s out) = Ok (c, g_stop out).
+Proof. intros F H. exact (@pn_solve_stop_is_criterion F H). Qed.
+Print Assumptions proxnewton_stop_is_criterion_of_returned_point.
+
+(* (w, Xw) only changes through the line search: any relation it preserves (e.g. Xw = X w + b 1, which holds when
+   X_delta_w = X delta_w) holds for the returned pair *)
+Theorem proxnewton_invariant_transport :
+  forall {F} `{Num F} (cfg : @pn_config F) (K : @pn_kernels F) (I : list F -> list F -> Prop),
+  (forall w Xw delta Xdelta ws w' Xw' g, I w Xw -> pk_linesearch K w Xw delta Xdelta ws = Ok (w', Xw', g) -> I w' Xw') ->
+  forall w0 Xw0 out, I w0 Xw0 -> pn_solve cfg K (Some w0) (Some Xw0) = Ok out -> I (pn_w (g_s out)) (pn_Xw (g_s out)).
+Proof. intros F H. exact (@pn_solve_preserves F H). Qed.
+Print Assumptions proxnewton_invariant_transport.
+
+(* the working set of AndersonCD is large enough to hold every feature forced into it (unpenalised features and the
+   generalized support): with a top-k selection no non-zero coefficient is left outside, which is the side condition under
+   which an accepted extrapolation (zero outside the working set) is consistent with its model fit *)
+Require Import SK.Lemmas.WorkingSet.
+Theorem andersoncd_working_set_covers_support_and_unpenalised :
+  forall (p0 : Z) (gs pen : list bool), length gs = length pen -> (0 <= p0)%Z ->
+  let p := Z.of_nat (length pen) in
+  let n_unpen := count_true (map negb pen) in
+  let n_gsupp_pen := count_true (map2b andb gs pen) in
+  let ws_size := Z.max (Z.min (p0 + n_unpen) p) (Z.min (2 * n_gsupp_pen + n_unpen) p) in
+  (count_true (map2b orb (map negb pen) gs) <= ws_size)%Z /\ (ws_size <= p)%Z.
+Proof. exact ws_size_covers_forced. Qed.
+Print Assumptions andersoncd_working_set_covers_support_and_unpenalised.
